@@ -158,6 +158,15 @@ func genConfig(rng *simcore.RNG, env *simcore.Env) simcore.Op {
 	c["skew"] = rng.Bool(0.3)
 	c["gst"] = prop == "C03" || rng.Bool(0.3)
 	c["max_bytes"] = []int{0, 0, 4000, 22020096}[rng.Intn(4)]
+	c["prune"] = (prop == "C18" && rng.Bool(0.7)) || rng.Bool(0.1)
+	if c.Bool("prune") && c.Int("tx_rate") == 0 {
+		c["tx_rate"] = 8
+	}
+	c["corrupt_parts"] = prop == "C10" || rng.Bool(0.1)
+	c["big_txs"] = prop == "C10" && rng.Bool(0.8)
+	if c.Bool("big_txs") && c.Int("tx_rate") == 0 {
+		c["tx_rate"] = 8
+	}
 	c["nemesis"] = "none"
 	if (prop == "C01" || prop == "C02") && rng.Bool(0.6) {
 		c["nemesis"] = "fork"
@@ -336,6 +345,7 @@ type item struct {
 	val  int // validator index
 	part int
 	id   string // Byzantine item id
+	mut  string // corruption applied in transit (block parts)
 }
 
 func (it item) key() string {
@@ -347,11 +357,14 @@ func (it item) op() simcore.Op {
 	if it.id != "" {
 		op["id"] = it.id
 	}
+	if it.mut != "" {
+		op["mut"] = it.mut
+	}
 	return op
 }
 
 func itemFromOp(op simcore.Op) item {
-	return item{kind: op.Str("k"), from: op.Int("from"), to: op.Int("to"), h: op.Int64("h"), r: int32(op.Int("r")), typ: op.Int("t"), val: op.Int("v"), part: op.Int("p"), id: op.Str("id")}
+	return item{kind: op.Str("k"), from: op.Int("from"), to: op.Int("to"), h: op.Int64("h"), r: int32(op.Int("r")), typ: op.Int("t"), val: op.Int("v"), part: op.Int("p"), id: op.Str("id"), mut: op.Str("mut")}
 }
 
 func stamp(rs *cstypes.RoundState) string {
@@ -504,6 +517,9 @@ func (s *sim) deliver(it item) bool {
 		if part == nil {
 			return false
 		}
+		if it.mut != "" {
+			return s.deliverMutatedPart(a, b, ra.ProposalBlockParts, rb, it, part)
+		}
 		s.mon.onDeliverPart(b, it.h, part)
 		s.with(b, func() { b.cs.AddProposalBlockPart(it.h, it.r, part, a.peer) })
 	case "vote":
@@ -639,6 +655,12 @@ func (s *sim) Next(rng *simcore.RNG) simcore.Op {
 		n := s.alive()[rng.Intn(len(s.alive()))]
 		s.txSeq++
 		tx := fmt.Sprintf("k%d=v%d", s.txSeq, rng.Intn(100))
+		if s.cfg.Bool("big_txs") && rng.Bool(0.5) {
+			tx = fmt.Sprintf("big%d=%d", s.txSeq, rng.Range(20000, 70000))
+		}
+		if s.cfg.Bool("prune") && rng.Bool(0.15) {
+			tx = fmt.Sprintf("retain:%d", rng.Range(1, 3))
+		}
 		if s.cfg.Bool("valtx") && rng.Bool(0.3) {
 			vi := rng.Intn(len(s.nodes))
 			tx = fmt.Sprintf("val:%x:%d", s.nodes[vi].key.PubKey().Bytes(), rng.Range(1, 12))
@@ -659,7 +681,11 @@ func (s *sim) Next(rng *simcore.RNG) simcore.Op {
 		return simcore.Op{"a": "timeout", "node": n.idx, "dt": rng.Intn(int(ti.Duration/time.Millisecond) + 1)}
 	}
 	if len(items) > 0 {
-		return items[rng.Intn(len(items))].op()
+		it := items[rng.Intn(len(items))]
+		if s.cfg.Bool("corrupt_parts") && it.kind == "part" && rng.Bool(0.5) {
+			it.mut = partMutations[rng.Intn(len(partMutations))]
+		}
+		return it.op()
 	}
 	if len(dead) > 0 {
 		return simcore.Op{"a": "restart", "node": dead[rng.Intn(len(dead))].idx}
@@ -731,7 +757,16 @@ func (s *sim) apply(op simcore.Op) bool {
 		}
 		s.driverInNode = true
 		s.cur = n
-		err := n.nd.Mempool().CheckTx(types.Tx(op.Str("tx")), func(*abci.Response) {}, mempoolTxInfo())
+		txb := []byte(op.Str("tx"))
+		if len(txb) > 3 && string(txb[:3]) == "big" {
+			// "big<seq>=<n>": padded to n bytes so that blocks span several parts
+			var seq, sz int
+			fmt.Sscanf(string(txb), "big%d=%d", &seq, &sz)
+			if sz > 0 && sz < 200000 {
+				txb = append(txb, bytes.Repeat([]byte{'.'}, sz)...)
+			}
+		}
+		err := n.nd.Mempool().CheckTx(types.Tx(txb), func(*abci.Response) {}, mempoolTxInfo())
 		s.env.Settle()
 		s.cur = nil
 		s.driverInNode = false
